@@ -8,7 +8,7 @@
 //                    {0,1,2,3,4,8,16,32,64,0x7f,0x80,200,254,0xff,v-1..v-4,v+1..v+3,v/2,2v} \ {v} (thorough: all 255 others)
 // and logs ONE outcome event per attempt.  The bytes are placed flush against a PROT_NONE region (guardbuf.hpp);
 // attempts run in a forked child (one child per image; a child that faults reports and exits, the parent forks a
-// new one for the remaining attempts) with RLIMIT_AS, an allocation cap inside the tracking heap and a 2 s CPU
+// new one for the remaining attempts) with RLIMIT_AS, an allocation cap inside the tracking heap and a 10 s CPU
 // timer.  Which outcomes are allowed is decided by spec/Reader.tla through spec/TraceReader.tla.
 //
 // outcome  Ok        full image accepted (reference digest recorded)
@@ -20,7 +20,7 @@
 //          OOB       access outside the supplied bytes (guard fault; `off` = offset past the supplied length), or a
 //                    write past an internal heap block (canary), or an AddressSanitizer report
 //          Crash     any other fatal signal, std::terminate, or an exception not derived from std::exception
-//          Hang      2 s of CPU time (or 120 s wall) in one attempt
+//          Hang      10 s of CPU time (or 120 s wall) in one attempt
 //          HugeAlloc a single request, or the live total, above the cap (256 MiB)
 //          SizeMismatch a heap block was handed to the sized operator delete (std::allocator::deallocate(p, n)) with a size
 //                    other than the one it was allocated with - in ANY mode, accepted or rejected (undefined behaviour)
@@ -962,7 +962,7 @@ static void on_signal(int sig, siginfo_t* si, void*) {
   if ((sig == SIGSEGV || sig == SIGBUS) && g_gb.in_guard(si->si_addr)) {
     fatal_result(O_OOB, "guard", g_gb.offset_past_end(si->si_addr));
   } else if (sig == SIGPROF || sig == SIGALRM) {
-    fatal_result(O_HANG, sig == SIGPROF ? "2s cpu" : "120s wall", 0);
+    fatal_result(O_HANG, sig == SIGPROF ? "10s cpu" : "120s wall", 0);
   } else {
     const char* nm = sig == SIGSEGV ? "SIGSEGV" : sig == SIGBUS ? "SIGBUS" : sig == SIGFPE ? "SIGFPE" : sig == SIGABRT ? "SIGABRT" : sig == SIGILL ? "SIGILL" : "signal";
     fatal_result(O_CRASH, nm, 0);
@@ -996,7 +996,7 @@ static void child_setup() {
   gb::g_cap = g_cap_bytes;
 }
 static void arm_timer() {
-  struct itimerval it; memset(&it, 0, sizeof it); it.it_value.tv_sec = 2;
+  struct itimerval it; memset(&it, 0, sizeof it); it.it_value.tv_sec = 10;   // CPU seconds: generous - a slow but finite use of a large accepted object is not a hang
   setitimer(ITIMER_PROF, &it, nullptr);
   alarm(120);   // wall-clock backstop only (a blocked process); generous, so that load on the machine cannot trigger it
 }
